@@ -84,6 +84,8 @@ def make_config(seed, tier="quick"):
             n_sends_a=max(cfg["n_sends_a"], 5),
             n_sends_b=max(cfg["n_sends_b"], 5),
             profile="overlap",
+            p_hook_stall=r2.choice([0.0, 0.2]),
+            hook_stall_s=r2.choice([1.5, 4.0]) * cfg["hb"],
         )
     cfg["settle_s"] = 8.0 * cfg["hb"] + 14.0
     return cfg
